@@ -823,6 +823,8 @@ pub const HOSTILE_CLASSES: &[&str] = &[
     "doctype",
     "doctype-entities",
     "xml-decl",
+    "xml-decl-run",
+    "pi-run",
     "cdata",
     "nesting",
     "nesting-known",
@@ -855,6 +857,9 @@ pub fn hostile_tail(class: &str, elem_open: &str, open_attr: &str) -> (Vec<u8>, 
         "doctype" => ("<!DOCTYPE ".to_string(), "a"),
         "doctype-entities" => ("<!DOCTYPE lolz [".to_string(), "<!ENTITY lol \"lollollol\">"),
         "xml-decl" => ("<?xml version=\"1.0\" ".to_string(), "a"),
+        // complete declarations / processing instructions, again and again
+        "xml-decl-run" => (String::new(), "<?xml version=\"1.0\"?>"),
+        "pi-run" => (String::new(), "<?p x?>\n"),
         "cdata" => ("<![CDATA[".to_string(), "a"),
         "nesting" => (String::new(), "<a>"),
         "nesting-known" => (String::new(), ""),
